@@ -13,6 +13,7 @@ package main
 
 import (
 	"fmt"
+	"sort"
 	"go/ast"
 	"go/token"
 	"go/types"
@@ -35,7 +36,7 @@ type fxCtx struct {
 // fxStr: a Lean string literal, shortened (labels only document the skeleton)
 func fxStr(s string) string {
 	s = strings.Join(strings.Fields(s), " ")
-	if len(s) > 60 {
+	if len(s) > 60 && !strings.HasPrefix(s, "type switch: case") && !strings.HasPrefix(s, "@case") {
 		s = s[:57] + "..."
 	}
 	return leanStr(s)
@@ -189,6 +190,16 @@ func (c *fxCtx) typed(e ast.Expr) string {
 	return exprString(e)
 }
 
+// assertMarker: `v, ok := x.(*T)` leaves a marker act `@assert T` (the branch on `ok` that follows knows the dynamic type)
+func (c *fxCtx) assertMarker(x *ast.AssignStmt) []string {
+	if len(x.Lhs) == 2 && len(x.Rhs) == 1 {
+		if ta, ok := x.Rhs[0].(*ast.TypeAssertExpr); ok && ta.Type != nil {
+			return []string{".call " + fxStr("@assert "+typeName(ta.Type))}
+		}
+	}
+	return nil
+}
+
 // constArgs: "(a,b)" when every argument of the call is a constant or a literal (updateState(StateSessionEstablished),
 // streamError("conflict", "no auth loop")), else ""
 func (c *fxCtx) constArgs(call *ast.CallExpr) string {
@@ -209,6 +220,16 @@ func (c *fxCtx) constArgs(call *ast.CallExpr) string {
 				consts++
 				continue
 			}
+		}
+		if cl, ok := a.(*ast.CompositeLit); ok && len(cl.Elts) == 0 && cl.Type != nil {
+			// an empty composite literal: its type is what matters (Send(stanza.SMRequest{}))
+			tn := exprString(cl.Type)
+			if i := strings.LastIndex(tn, "."); i >= 0 {
+				tn = tn[i+1:]
+			}
+			parts = append(parts, tn+"{}")
+			consts++
+			continue
 		}
 		parts = append(parts, "_") // not a constant
 	}
@@ -340,6 +361,7 @@ func (c *fxCtx) stmts(list []ast.Stmt, k string) string {
 		for _, l := range x.Lhs {
 			acts = append(acts, c.acts(l)...)
 		}
+		acts = append(acts, c.assertMarker(x)...)
 		// a constant assigned to a field (t.isSecure = true, s.TlsEnabled = false): an act of its own
 		if x.Tok == token.ASSIGN && len(x.Lhs) == 1 && len(x.Rhs) == 1 {
 			if sel, ok := x.Lhs[0].(*ast.SelectorExpr); ok {
@@ -557,7 +579,7 @@ func (c *fxCtx) stmtActs(s ast.Stmt) []string {
 		for _, r := range x.Rhs {
 			acts = append(acts, c.acts(r)...)
 		}
-		return acts
+		return append(acts, c.assertMarker(x)...)
 	case *ast.IncDecStmt:
 		return c.acts(x.X)
 	case *ast.SendStmt:
@@ -609,7 +631,8 @@ func genFx(outDir string, pkgs []struct {
 	info *types.Info
 	tag  string
 }, also map[string]bool) error {
-	var entries []fxEntry
+	var entries, graph []fxEntry
+	seenGraph := map[string]bool{}
 	var unsupported []string
 	for _, pk := range pkgs {
 		for _, f := range pk.p.files {
@@ -640,6 +663,17 @@ func genFx(outDir string, pkgs []struct {
 				if hasLockOp(fd.Body, true) || also[name] {
 					emit(name, fd.Body)
 				}
+				// every function, for the call graph (a body outside the subset is left out: a call of it is then
+				// taken for one that may lock anything)
+				if fd.Name.Name != "init" && !seenGraph[name] {
+					seenGraph[name] = true
+					c := &fxCtx{info: pk.info}
+					term := c.stmts(fd.Body.List, "(.ret \"\")")
+					if c.bad == "" && len(term) < 20000 {
+						ln := "g_" + strings.NewReplacer(".", "_", "/", "_", "#", "_lit").Replace(name)
+						graph = append(graph, fxEntry{name, ln, term})
+					}
+				}
 				k := 0
 				ast.Inspect(fd.Body, func(m ast.Node) bool {
 					if fl, ok := m.(*ast.FuncLit); ok {
@@ -658,12 +692,61 @@ func genFx(outDir string, pkgs []struct {
 	for _, e := range entries {
 		fmt.Fprintf(&sb, "/-- skeleton of %s -/\ndef %s : Fx :=\n  %s\n\n", e.name, e.lean, e.term)
 	}
+	for _, e := range graph {
+		fmt.Fprintf(&sb, "def %s : Fx :=\n  %s\n\n", e.lean, e.term)
+	}
+	sb.WriteString("/-- the skeleton of EVERY function of both packages (the call graph) -/\ndef fns : List (String × Fx) := [")
+	for i, e := range graph {
+		if i > 0 {
+			sb.WriteString(", ")
+		}
+		fmt.Fprintf(&sb, "(%s, %s)", leanStr(e.name), e.lean)
+	}
+	sb.WriteString("]\n\n")
 	sb.WriteString("/-- every function and function literal that performs a lock operation in its own body (and the ones asked for by name) -/\ndef all : List (String × Fx) := [")
 	for i, e := range entries {
 		if i > 0 {
 			sb.WriteString(", ")
 		}
 		fmt.Fprintf(&sb, "(%s, %s)", fxStr(e.name), e.lean)
+	}
+	sb.WriteString("]\n\n/-- the named types of the package that implement each of its interfaces (dynamic dispatch of `Iface.Method` calls) -/\ndef impls : List (String × List String) := [")
+	first := true
+	for _, pk := range pkgs {
+		if pk.info == nil {
+			continue
+		}
+		var ifaces, named []*types.TypeName
+		for _, obj := range pk.info.Defs {
+			tn, ok := obj.(*types.TypeName)
+			if !ok || tn.Parent() == nil || tn.Parent() != tn.Pkg().Scope() {
+				continue
+			}
+			if _, isIf := tn.Type().Underlying().(*types.Interface); isIf {
+				ifaces = append(ifaces, tn)
+			} else {
+				named = append(named, tn)
+			}
+		}
+		sort.Slice(ifaces, func(i, j int) bool { return ifaces[i].Name() < ifaces[j].Name() })
+		sort.Slice(named, func(i, j int) bool { return named[i].Name() < named[j].Name() })
+		for _, it := range ifaces {
+			iface := it.Type().Underlying().(*types.Interface)
+			if iface.NumMethods() == 0 {
+				continue
+			}
+			var im []string
+			for _, n := range named {
+				if types.Implements(n.Type(), iface) || types.Implements(types.NewPointer(n.Type()), iface) {
+					im = append(im, n.Name())
+				}
+			}
+			if !first {
+				sb.WriteString(", ")
+			}
+			first = false
+			fmt.Fprintf(&sb, "(%s, %s)", leanStr(pk.tag+it.Name()), leanStrList(im))
+		}
 	}
 	sb.WriteString("]\n\n/-- bodies the skeleton extractor does not cover (goto, labels, fallthrough) -/\ndef unsupported : List String := " + leanStrList(unsupported) + "\n\nend XmppVerif.Gen.Fx\n")
 	return os.WriteFile(filepath.Join(outDir, "Fx.lean"), []byte(sb.String()), 0o644)
